@@ -101,6 +101,22 @@ def check_split_kwargs(cx, rep, tk=None, tdefs=None, genf=None):
                     bad_ = m_ in ('pop', 'popitem', 'clear', '__delitem__') or any(k_ in LONG_WITH_ALIAS for k_ in keys_)
                     rep.ob('F5: the worker neither removes an option from the keywords it hands to split() nor pre-sets one that has a short alias', not bad_, cx.where(MOD, e[3]), 'TokenizerWorker.__init__:kwargs-%s' % m_,
                            'kwargs.%s(%s) before split(**kwargs)' % (m_, ', '.join(map(repr, keys_))))
+    if tin is not None and kwp is not None:
+        # a comprehension that re-builds the keywords and keeps an entry only when its VALUE is truthy drops legitimate zero values
+        # (max_silence=0, energy_threshold=0, use_channel=0): split() then falls back to its defaults
+        for n in ast.walk(tin[2]):
+            if not isinstance(n, ast.DictComp):
+                continue
+            reads_kw = lambda x: ((isinstance(x, ast.Subscript) and isinstance(x.value, ast.Name) and x.value.id == kwp)
+                                  or (isinstance(x, ast.Call) and isinstance(x.func, ast.Attribute) and x.func.attr == 'get' and isinstance(x.func.value, ast.Name) and x.func.value.id == kwp and len(x.args) == 1))
+            if not reads_kw(n.value):
+                continue
+            for g in n.generators:
+                for t in g.ifs:
+                    t_ = t.args[0] if isinstance(t, ast.Call) and isinstance(t.func, ast.Name) and t.func.id == 'bool' and len(t.args) == 1 else t
+                    if reads_kw(t_):
+                        rep.ob('F5: an option given with the value 0 reaches split() (the keywords are not filtered on the truth value of their values)', False, cx.where(MOD, t),
+                               'TokenizerWorker.__init__:kwargs-truthy-filter', 'entries kept only if %s' % ast.unparse(t))
     for f in genf:
         for d in tdefs[f]:
             kws = dict(d['value'][3])
@@ -108,8 +124,9 @@ def check_split_kwargs(cx, rep, tk=None, tdefs=None, genf=None):
                 rep.unknown('TokenizerWorker.__init__: split() is not called with a ** dictionary (%s)' % show(d['value'])[:80])
                 continue
             base_ = kws['**']
-            while base_[0] == 'upd':          # kwargs[k] = v before the call only adds an entry (input = the worker itself)
-                base_ = base_[1]
+            while base_[0] == 'upd' or (base_[0] == 'call' and base_[1] == ('b', 'dict') and len(base_[2]) == 1):
+                # kwargs[k] = v before the call, or dict(kwargs, k=v): only adds an entry (input = the worker itself)
+                base_ = base_[1] if base_[0] == 'upd' else base_[2][0]
             rep.ob('F5: split() receives the worker\'s keyword arguments unfiltered (**kwargs as given to the constructor)', base_ == ('p', kwp), W(d['node']), 'TokenizerWorker.__init__:split-kwargs',
                    'split() is given **%s' % show(kws['**'])[:100], sample=dict(split_kwargs=show(kws['**'])[:60]))
 
@@ -313,10 +330,17 @@ def check(repo, rep):
         star = dict(v[3]).get('**')
         okin = False
         cur = star
-        while cur is not None and cur[0] == 'upd':
-            if cur[2] == ('c', 'input') and cur[3] == ('self',):
-                okin = True
-            cur = cur[1]
+        while cur is not None and (cur[0] == 'upd' or (cur[0] == 'call' and cur[1] == ('b', 'dict') and len(cur[2]) == 1)):
+            if cur[0] == 'upd':
+                if cur[2] == ('c', 'input') and cur[3] == ('self',):
+                    okin = True
+                cur = cur[1]
+            else:
+                if dict(cur[3]).get('input') == ('self',):            # dict(kwargs, input=self)
+                    okin = True
+                cur = cur[2][0]
+        if dict(v[3]).get('input') == ('self',):                       # split(input=self, **kwargs)
+            okin = True
         rep.ob('F5: the tokenizer worker itself is the input of split() (so that read() can inject the stop)', okin and not v[2], W(d['node']), 'TokenizerWorker.__init__:split-input', 'split call %s' % show(v)[:120])
     obs_f = [f for f, ds in tdefs.items() if any(any(x == ('p', 'observers') for x in walk(d['value'])) for d in ds)]
     det_f = [f for f, ds in tdefs.items() if any(d['method'] == '__init__' and d['value'] == ('list', ()) for d in ds)]
@@ -345,6 +369,9 @@ def check(repo, rep):
             oke = it[0] == 'call' and it[1] == ('b', 'enumerate') and it[2] == (('attr', ('self',), genf[0] if genf else ''),) and dict(it[3]).get('start') == ('c', 1)
             if it[0] == 'call' and it[1] == ('b', 'enumerate') and len(it[2]) == 2:
                 oke = it[2] == (('attr', ('self',), genf[0] if genf else ''), ('c', 1))
+            if it[0] == 'call' and it[1] == ('b', 'zip') and len(it[2]) == 2 and it[2][1] == ('attr', ('self',), genf[0] if genf else '') and it[2][0][0] == 'call' \
+                    and term_name(it[2][0][1]).split('.')[-1] == 'count' and it[2][0][2] in ((('c', 1),), ) and not it[2][0][3]:
+                oke = True                        # zip(itertools.count(1), detections) is enumerate(detections, start=1)
             elem = ('elem', it)
             idt, reg = ('sub', elem, ('c', 0)), ('sub', elem, ('c', 1))
             if not oke and it == ('attr', ('self',), genf[0] if genf else ''):
@@ -541,6 +568,7 @@ def check(repo, rep):
         rep.ob('F9: thread code of %s never joins itself' % c.name, True, cx.where(m, c))
     # ---------------------------------------------------------------- F10 every concrete worker handles messages
     nconc = 0
+    nfmt = [0]
     for m, c in worker_subclasses(cx):
         r = cx.model.find_method(m, c, 'run')
         inherits_run = r is not None and r[1] is wcls
@@ -558,6 +586,23 @@ def check(repo, rep):
                 uses = {x[2][1] for l in lv for e in l.effects for t_ in (e[1], e[2]) if isinstance(t_, tuple) for x in walk(t_)
                         if x[0] == 'sub' and x[1] == ('p', pn) and x[2][0] == 'c' and isinstance(x[2][1], int)}
                 uses |= {x[2][1] for l in lv for v_ in l.env.values() if isinstance(v_, tuple) for x in walk(v_) if x[0] == 'sub' and x[1] == ('p', pn) and x[2][0] == 'c' and isinstance(x[2][1], int)}
+                # F11 text that str.format already expanded (it holds file names, commands: run-time data) is never a format template again:
+                # braces in the data would make the handler raise and the observer thread die before the remaining detections
+                from ..semantic import deep_leaves, Undecided
+                try:
+                    dlv = deep_leaves(cx, h[0], c, h[2])
+                except Undecided:
+                    dlv = lv
+                for l in dlv:
+                    for e in l.effects:
+                        if e[0] != 'call' or not isinstance(e[1], tuple) or e[1][0] != 'call':
+                            continue
+                        f_ = e[1][1]
+                        if isinstance(f_, tuple) and f_[0] == 'attr' and f_[2] == 'format':
+                            nfmt[0] += 1
+                            inner = [x for x in walk(f_[1]) if x[0] == 'call' and isinstance(x[1], tuple) and x[1][0] == 'attr' and x[1][2] in ('format', 'format_map')]
+                            rep.ob('F11: an observer never uses already formatted text (run-time data) as a format template', not inner, cx.where(h[0], e[3]) if len(e) > 3 and isinstance(e[3], ast.AST) else cx.where(h[0], h[2]),
+                                   '%s.%s:template' % (c.name, hook), 'template is %s' % show(f_[1])[:160])
                 if not uses:
                     rep.unknown('%s.%s: how the message is taken apart was not recognised' % (c.name, hook))
                 else:
